@@ -172,7 +172,7 @@ def r3(idx, rep):
     rep.check(not strm, "R3", f"{fl.file}::delivery path applies no string method to cells", f"{strm}", K.where(fl, fl.node))
     it = Interp(idx, types={"self": "CsvPath"}, unknown_calls="residual")
     line = ["a ", ' "b"', ""]
-    ps = it.run_all(fl, args={"line": line}, store={"self.limit_collection_to": [], "self._limit_collection_to": []})
+    ps = it.run_all(fl, args={"line": line}, store={"self.limit_collection_to": [], "self." + K.names(idx)["limit"]: []})
     rep.check(len(ps) == 1 and ps[0].result == ("return", line), "R3", f"{fl.file}::limit_collection identity without collect()", f"{ps[0].result}", K.where(fl, fl.node))
 
 
@@ -277,7 +277,7 @@ def header_index_sequences(idx, rep, rid):
                 if op == "look":
                     out.append(it.call_function(fh, {"__pos__": [arg]}, "self"))
                 elif op == "append":
-                    it.store["self._headers"].append(arg)
+                    it.store["self." + K.names(idx)["headers"]].append(arg)
                 else:
                     # through the property setter, as reset_headers()/the reader do
                     it.assign(ast.parse("self.headers = 0").body[0].targets[0], list(arg), {"__self__": "self"})
@@ -285,7 +285,7 @@ def header_index_sequences(idx, rep, rid):
 
         it = Interp(idx, types={"self": "CsvPath"}, unknown_calls="residual", inline={"CsvPath.headers"})
         st = dict(base)
-        st["self._headers"] = None if hs0 is None else list(hs0)
+        st["self." + K.names(idx)["headers"]] = None if hs0 is None else list(hs0)
         ps = it.run_program(program, st)
         n += 1
         hs = None if hs0 is None else list(hs0)
